@@ -194,21 +194,29 @@ def compare(acc, src, benv, origin, node=None, tag=None):
     detail = ""
     if node is not None:
 
-        def out_of(n, r):
-            return core.api_eval(r, lang.to_text(n), b)
+        def out_of(n, r, extra=None):
+            bb = dict(b, **extra) if extra else b
+            return core.api_eval(r, lang.to_text(n), bb)
 
-        def fails(n):
-            a = out_of(n, "I")
-            return a[0] != "X" and a != out_of(n, "C")
+        def fails(n, extra):
+            a = out_of(n, "I", extra)
+            return a[0] != "X" and a != out_of(n, "C", extra)
+
+        def elements(recv, extra):
+            o = core.api_eval("I", lang.to_text(recv), dict(b, **extra) if extra else b, raw=True)
+            if o[0] != "V":
+                return None
+            v = o[-1]
+            return list(v)[:2] if isinstance(v, (list, dict)) else None
 
         try:
-            m = diag.localize(node, fails)
-            mi, mc = out_of(m, "I"), out_of(m, "C")
+            m, ex_b = diag.localize_scoped(node, fails, elements)
+            mi, mc = out_of(m, "I", ex_b), out_of(m, "C", ex_b)
             if mi == mc or mi[0] == "X":
-                m, mi, mc = node, oi, oc
-            sh = diag.shape(m, lambda x: diag.oclass(out_of(x, "I")).split("@")[0])
+                m, mi, mc, ex_b = node, oi, oc, {}
+            sh = diag.shape(m, lambda x: diag.oclass(out_of(x, "I", ex_b)).split("@")[0])
             slug = f"{sh} I={diag.oclass(mi)} C={diag.oclass(mc)}"
-            detail = f" minimal sub-expression {lang.to_text(m)!r}"
+            detail = f" minimal sub-expression {lang.to_text(m)!r}" + (f" with {sorted(ex_b)} bound to macro elements" if ex_b else "")
         except Exception as ex:  # localisation is best effort
             detail = f" (localisation failed: {type(ex).__name__})"
     elif tag is not None:
